@@ -414,6 +414,21 @@ def _host_disc_plan(rng, frames):
     return p
 
 
+def _ring_plan(rng, k, locals_):
+    """The spectator stops ticking for exactly k host frames on a perfect zero-latency link and then resumes:
+    the distance between the newest received frame and the next frame to replay sweeps across the size of the
+    spectator's 60-slot ring (at the boundary it must report SpectatorTooFarBehind, not other frames' inputs)."""
+    peers = [{"kind": "p2p", "locals": list(range(locals_)), "delay": 0, "host": 0},
+             {"kind": "spec", "locals": [], "delay": 0, "host": 0}]
+    cfg = {"players": locals_, "window": rng.choice([2, 8]), "sparse": False, "predictor": "repeat", "desync": 0,
+           "fps": 60, "timeout": 20000, "notify": 10000, "max_behind": rng.choice([2, 10]),
+           "catchup": rng.choice([1, 3]), "max_delay": 8, "peers": peers, "inputs_by_frame": 16}
+    return {"seed": rng.randrange(1 << 30), "frames": 20 + k + 120, "cfg": cfg, "tick_ms": [16, 16], "jitter": 0,
+            "lat_lo": 0, "lat_hi": 0, "loss": 0.0, "dup": 0.0, "alphabet": 16, "change": 1.0, "p_poll": 0.0,
+            "p_pause": 0.0, "pause_ms": 0, "drain": True, "max_ms": 60000, "settle_ms": 300,
+            "holds": [{"p": 1, "at_frame": 20, "ticks": k}]}
+
+
 def c06(res, wd):
     # model: one host (one local player) + one spectator, exhaustive; catch-up settings scaled down
     held, cex = engines.mc_system(res, wd, "h1s_f3", {"Peers": "GenPeers1s", "NumPlayers": 1, "Window": 2, "MaxFrame": 3,
@@ -431,6 +446,11 @@ def c06(res, wd):
     ps += [_host_disc_plan(rng, frames) for _ in range(max(4, n // 2))]
     outs = engines.obs_runs(res, "C06", ps, {"C06"}, wd, "c06",
                             nontrivial=lambda st, pl: st["specAdv"] >= 50)
+    # ring boundary sweep: pauses of 54..66 host frames (thorough: 48..72, one and two local players)
+    lo, hi = sizes(res.tier, (54, 66), (48, 72))
+    ring = [_ring_plan(rng, k, 1 + (k % 2 if res.tier == "quick" else j)) for k in range(lo, hi + 1)
+            for j in (range(1) if res.tier == "quick" else range(2))]
+    engines.obs_runs(res, "C06", ring, {"C06"}, wd, "c06ring", nontrivial=lambda st, pl: st["specAdv"] >= 20)
     # non-interference: the same players without the spectators simulate the same confirmed timeline
     twins = 0
     pairs = []
